@@ -329,5 +329,7 @@ def gen_case(rng: Rng, max_ops: int = 30) -> dict:
     else:
         folders, files = FOLDERS, FILES
     n = rng.range(4, max_ops)
+    # mostly-valid: start from a populated file system so that deletes/restores/verbs have something to act on
+    setup = [["cfile", rng.choice(folders), rng.choice(files), False] for _ in range(rng.range(0, 3))]
     return {"surface": surface, "restore_duration": rng.choice([None, None, 0, 1, 1, 2, 3]),
-            "ops": [gen_op(rng, folders, files) for _ in range(n)]}
+            "ops": setup + [gen_op(rng, folders, files) for _ in range(n)]}
